@@ -24,6 +24,11 @@ namespace BitSerializer::Detail
 		[[nodiscard]] bool IsFailed() const noexcept;
 		[[nodiscard]] size_t GetPosition() const noexcept;
 		bool SetPosition(size_t pos);
+		/// <summary>
+		/// Makes sure that the specified number of bytes (when they exist) are cached starting from the current position,
+		/// so `SetPosition()` can return back within this block without seeking the stream.
+		/// </summary>
+		bool Prefetch(size_t blockSize);
 
 		[[nodiscard]] std::optional<char> PeekByte();
 		void GotoNextByte();
